@@ -92,3 +92,28 @@ contract(T3EMU + '.process_command', 'C07', dict(self=EMU(), cmd=Bytes(0, 300, m
          name='C07/tt3emu.process_command',
          use=['C07/tt3emu.read_without_encryption', 'C07/tt3emu.write_without_encryption'],
          ensures=[('post.rsp', 'result is None or len(result) >= 2')], raises={})
+
+# SNEP server: a complete request of any content (request code, length field, information field) is answered;
+# nothing but a response comes out of process_snep_request (struct.error from a short GET would kill the
+# serving thread).  ndeflib is outside the verified code: decoder/encoder are assumed to return or raise
+# ndef.DecodeError / ndef.EncodeError; the application upcalls return a response code or records.
+SS = 'nfc.snep.server:'
+contract('ndef:message_decoder', 'C07', dict(octets=Any()), name='C07/ndef.message_decoder', assumed=True,
+         note='ndeflib: decodes the octets or raises ndef.DecodeError (not modelled: the except clause is ndeflib\'s)',
+         raises={}, returns=Fixed([]))
+contract('ndef:message_encoder', 'C07', dict(message=Any()), name='C07/ndef.message_encoder', assumed=True,
+         note='ndeflib: yields the octets of each record', raises={}, returns=Fixed([]))
+contract(SS + 'SnepServer.process_put_request', 'C07', dict(self=Any(), ndef_message=Any()),
+         name='C07/snep.process_put_request', assumed=True, note='application upcall', raises={}, returns=Int(0, 255))
+contract(SS + 'SnepServer.process_get_request', 'C07', dict(self=Any(), ndef_message=Any()),
+         name='C07/snep.process_get_request', assumed=True, note='application upcall: response code or records',
+         raises={}, returns=OneOf(Int(0, 255), Fixed([])))
+contract(SS + 'SnepServer.process_snep_request', 'C07',
+         dict(self=Obj(SS + 'SnepServer', max_acceptable_length=Int(0, None)),
+              request_data=Bytes(6, None, mutable=True)),
+         name='C07/snep.process_snep_request',
+         use=['C07/ndef.message_decoder', 'C07/ndef.message_encoder', 'C07/snep.process_put_request',
+              'C07/snep.process_get_request'],
+         requires=['len(request_data) - 6 >= be32(request_data[2:6])'],
+         ensures=[('O-answer', 'len(result) >= 6 and result[0] == 0x10')],
+         raises={})
